@@ -145,8 +145,10 @@ func (p *SNIProxy) ServeTCP(in net.Conn) error {
 		t.RxCounter.Add(float64(n))
 	}
 
+	// read from the buffered reader since it can already hold
+	// data which the client has sent after the ClientHello
 	go cp(in, out, t.RxCounter)
-	go cp(out, in, t.TxCounter)
+	go cp(out, tlsReader, t.TxCounter)
 	err = <-errc
 	if err != nil && err != io.EOF {
 		log.Print("[WARN]: tcp+sni:  ", err)
